@@ -408,9 +408,9 @@ pub enum RealOutcome {
     BuildFailed,
 }
 
-/// Execute the history against the real `Builder`.
-pub fn run_real(ctor: &Ctor, ops: &[BOp]) -> RealOutcome {
-    let mut b = match ctor {
+/// The builder a history starts from.
+pub fn make_builder(ctor: &Ctor) -> Builder {
+    match ctor {
         Ctor::New { vc, afp } => Builder::new(*vc, *afp),
         Ctor::WithAddresses {
             vc,
@@ -442,8 +442,11 @@ pub fn run_real(ctor: &Ctor, ops: &[BOp]) -> RealOutcome {
                 _ => Builder::with_addresses(*vc, protocol, Addresses::Unspecified),
             }
         }
-    };
-    for (i, op) in ops.iter().enumerate() {
+    }
+}
+
+/// Apply one operation of a history to the real `Builder` (Err = the call returned an error).
+pub fn apply_op(mut b: Builder, op: &BOp) -> Result<Builder, ()> {
         match op {
             BOp::Reserve(n) => b = b.reserve_capacity(*n),
             BOp::SetLength(l) => b = b.set_length(*l),
@@ -493,7 +496,7 @@ pub fn run_real(ctor: &Ctor, ops: &[BOp]) -> RealOutcome {
                 };
                 match r {
                     Ok(nb) => b = nb,
-                    Err(_) => return RealOutcome::WriteFailed(i),
+                    Err(_) => return Err(()),
                 }
             }
             BOp::Batch(ps) => {
@@ -548,7 +551,7 @@ pub fn run_real(ctor: &Ctor, ops: &[BOp]) -> RealOutcome {
                 };
                 match r {
                     Ok(nb) => b = nb,
-                    Err(_) => return RealOutcome::WriteFailed(i),
+                    Err(_) => return Err(()),
                 }
             }
             BOp::BatchLazy(ps, style) => {
@@ -558,7 +561,16 @@ pub fn run_real(ctor: &Ctor, ops: &[BOp]) -> RealOutcome {
                     .zip(datas.iter())
                     .map(|(p, d)| to_p(p, d))
                     .collect();
-                let r = match style % 4 {
+                let r = match style % 5 {
+                    4 => b.write_payloads(v.into_iter().map(|p| {
+                        // the caller assembles an unrelated blob with another builder while this
+                        // batch is being consumed (re-entrant use of the builder machinery)
+                        let _ = Builder::new(0x21, 0x00)
+                            .write_payloads([7u8, 9u8])
+                            .and_then(|n| n.write_tlv(4u8, &[1u8, 2, 3][..]))
+                            .and_then(|n| n.build());
+                        p
+                    })),
                     0 => b.write_payloads(v.into_iter().filter(|_| true)),
                     1 => {
                         let mut it = v.into_iter();
@@ -578,20 +590,62 @@ pub fn run_real(ctor: &Ctor, ops: &[BOp]) -> RealOutcome {
                 };
                 match r {
                     Ok(nb) => b = nb,
-                    Err(_) => return RealOutcome::WriteFailed(i),
+                    Err(_) => return Err(()),
                 }
             }
             BOp::WriteTlv(k, f) => {
                 let data = f.bytes();
                 match b.write_tlv(*k, data.as_slice()) {
                     Ok(nb) => b = nb,
-                    Err(_) => return RealOutcome::WriteFailed(i),
+                    Err(_) => return Err(()),
                 }
             }
             BOp::RawWrite(_) => {}
         }
+    Ok(b)
+}
+
+/// Execute the history against the real `Builder`.
+pub fn run_real(ctor: &Ctor, ops: &[BOp]) -> RealOutcome {
+    let mut b = make_builder(ctor);
+    for (i, op) in ops.iter().enumerate() {
+        b = match apply_op(b, op) {
+            Ok(nb) => nb,
+            Err(()) => return RealOutcome::WriteFailed(i),
+        };
     }
     match b.build() {
+        Ok(v) => RealOutcome::Built(v),
+        Err(_) => RealOutcome::BuildFailed,
+    }
+}
+
+/// Execute two histories on two builders alternately (one operation of each in turn, the other
+/// builder finishing — or failing — whenever its turn comes): what a caller does that assembles
+/// two headers side by side. Returns the outcome of the first.
+pub fn run_real_interleaved(ctor: &Ctor, ops: &[BOp], other_ctor: &Ctor, other_ops: &[BOp]) -> RealOutcome {
+    let mut a = make_builder(ctor);
+    let mut other = Some(make_builder(other_ctor));
+    let mut j = 0usize;
+    let mut step_other = |other: &mut Option<Builder>, j: &mut usize| {
+        if let Some(b) = other.take() {
+            if *j < other_ops.len() {
+                *other = apply_op(b, &other_ops[*j]).ok();
+                *j += 1;
+            } else {
+                let _ = b.build();
+            }
+        }
+    };
+    for (i, op) in ops.iter().enumerate() {
+        step_other(&mut other, &mut j);
+        a = match apply_op(a, op) {
+            Ok(nb) => nb,
+            Err(()) => return RealOutcome::WriteFailed(i),
+        };
+    }
+    step_other(&mut other, &mut j);
+    match a.build() {
         Ok(v) => RealOutcome::Built(v),
         Err(_) => RealOutcome::BuildFailed,
     }
@@ -1054,7 +1108,7 @@ pub fn reshape(ops: &[BOp], shape: u8, rng: &mut Rng) -> Vec<BOp> {
                     out.push(BOp::Write(p[i].clone()));
                 } else {
                     if rng.chance(1, 3) {
-                        out.push(BOp::BatchLazy(p[i..i + k].to_vec(), rng.below(4) as u8));
+                        out.push(BOp::BatchLazy(p[i..i + k].to_vec(), rng.below(5) as u8));
                     } else {
                         out.push(BOp::Batch(p[i..i + k].to_vec()));
                     }
